@@ -808,6 +808,12 @@ class Mesh:
         if 'subdomains' in data and data['subdomains'] is not None:
             data['subdomains'] = {k: np.array(v, dtype=np.int64)
                                   for k, v in data['subdomains'].items()}
+        orientations = data.pop('orientations', None)
+        if orientations is not None and data.get('boundaries') is not None:
+            data['boundaries'].update({
+                k: OrientedBoundary(data['boundaries'][k], v)
+                for k, v in orientations.items()
+            })
         data['doflocs'] = data.pop('p')
         data['_subdomains'] = data.pop('subdomains')
         data['_boundaries'] = data.pop('boundaries')
@@ -821,12 +827,21 @@ class Mesh:
             boundaries = {k: v.tolist() for k, v in self.boundaries.items()}
         if self.subdomains is not None:
             subdomains = {k: v.tolist() for k, v in self.subdomains.items()}
-        return {
+        out = {
             'p': self.p.T.tolist(),
             't': self.t.T.tolist(),
             'boundaries': boundaries,
             'subdomains': subdomains,
         }
+        if self.boundaries is not None:
+            orientations = {k: v.ori.tolist()
+                            for k, v in self.boundaries.items()
+                            if isinstance(v, OrientedBoundary)}
+            if len(orientations) > 0:
+                out['orientations'] = orientations
+                # the flags refer to the elements in their local order
+                out['sort_t'] = self.sort_t
+        return out
 
     @classmethod
     def from_mesh(cls, mesh, t: Optional[ndarray] = None):
